@@ -85,6 +85,12 @@ void AbstractParameterAliasable::aliasParameters(const std::string& p1, const st
 
   if (aliasListenersRegister_.find(idCheck) != aliasListenersRegister_.end())
     throw Exception("AbstractParameterAliasable::aliasParameters. Trying to alias parameter " + p2 + " to " + p1 + ", but parameter " + p1 + " is already aliased to parameter " + p2 + ".");
+  // More generally, p2 must not be p1 itself or any parameter p1 is aliased to through a chain, otherwise the link closes a cycle:
+  for (string up = p1; up != ""; up = getFrom(getNamespace() + up))
+  {
+    if (up == p2)
+      throw Exception("AbstractParameterAliasable::aliasParameters. Trying to alias parameter " + p2 + " to " + p1 + ", but parameter " + p1 + " is " + p2 + " or already depends on it: this would close a cycle.");
+  }
   Parameter* param1 = &getParameter_(p1);
   Parameter* param2 = &getParameter_(p2);
 
